@@ -30,6 +30,11 @@ def B(b):
     return N(["const", ["b", 1 if b else 0]], "#t" if b else "#f")
 
 
+def QB(b):
+    """a QUOTED boolean constant: the same value, but a literal node for the compiler"""
+    return N(["const", ["b", 1 if b else 0]], "'#t" if b else "'#f")
+
+
 def S(name):
     return N(["const", ["s", name]], "'" + name)
 
@@ -612,6 +617,12 @@ class Gen09(Gen03):
             elif k == 2:      # constant test, dead branch with an effect that must not happen
                 st.append(if_(prim("<", I(1), I(2)), emit(I(11)), emit(I(12))))
                 st.append(if_(B(False), emit(I(13)), VOID))
+                # the same with QUOTED constants (literal nodes) and constants that reach the test through a let
+                qv = fresh("qc")
+                st.append(if_(QB(r.random() < 0.5), emit(I(14)), emit(I(15))))
+                st.append(let([(qv, QB(r.random() < 0.5))], if_(V(qv), emit(I(16)), emit(I(17)))))
+                st.append(let([(qv, N(["const", ["nil"]], "'()"))], if_(V(qv), emit(I(18)), emit(I(19)))))
+                st.append(emit(if_(prim("not", QB(False)), S("yes"), S("no"))))
             elif k == 3 and r.random() < 0.5:      # a type predicate whose value is unused but whose ARGUMENT has an effect
                 n = fresh("tp")
                 st.append(let([(n, I(0))], begin(prim(r.choice(["pair?", "null?", "procedure?"]), begin(set_(n, prim("+", V(n), I(1))), V(n))),
